@@ -7,6 +7,7 @@ CONSTANTS
   MaxAls = 2
   EditVals = {1, 2, 3, 4, 5, 6, 7, 8}
   PairAll = FALSE
+  WithPerturb = TRUE
   WithPinv = FALSE
 INVARIANT HistoryIndependent
 INVARIANT AfterSetTargetInSync
